@@ -907,6 +907,14 @@ class Multiplexer(utils.EventEmitter):
                 # Not expected, this is an initiator-side number
                 # TODO: error out
                 logger.warning(f'invalid DLCI: {pn.dlci}')
+            elif (
+                existing_dlc := self.dlcs.get(pn.dlci)
+            ) is not None and existing_dlc.state in (
+                DLC.State.CONNECTED,
+                DLC.State.DISCONNECTING,
+            ):
+                # The parameters of an established DLC cannot be negotiated again
+                logger.warning(f'PN command for established DLCI: {pn.dlci}')
             else:
                 if self.acceptor:
                     channel_number = pn.dlci >> 1
